@@ -486,6 +486,46 @@ def oracle_r_hist(cases, impl):
     return out
 
 
+# ---------------------------------------------------------------- C19: the period equals the closed form, on the helper itself
+def oracle_mxrr(cases, impl):
+    out = []
+    for line in cases:
+        if not line.startswith("V fn.mxrr_close_formula"):
+            continue
+        info = case_info(line)
+        tr = impl.get(info["cid"])
+        if not tr:
+            continue
+        cm, uf, rd, wd = (int(x) for x in info["args"][:4])
+        if cm < 0 or uf <= 0 or wd + rd < 0:
+            continue
+        t = 0
+        while comb(cm + 1 + t, t) * uf <= wd + rd:
+            t += 1
+        want = comb(cm + t, t)
+        if tr[0] != str(want):
+            out.append(fail("C19", info, line, "mxrr_close_formula(cm=%d, uf=%d, rd=%d, wd=%d) = %s, the closed form gives %d" % (cm, uf, rd, wd, tr[0], want), "period"))
+    return out
+
+
+# ---------------------------------------------------------------- C16 on single entries (V tabmemo n s)
+def oracle_tabmemo(cases, impl):
+    out = []
+    for line in cases:
+        if not line.startswith("V fn.mixed_steps_tabulation"):
+            continue
+        info = case_info(line)
+        if info["fn"] != "tabmemo":
+            continue
+        tr = impl.get(info["cid"])
+        if not tr:
+            continue
+        parts = tr[0].split()
+        if len(parts) != 2 or parts[0] != parts[1]:
+            out.append(fail("C16", info, line, "tabulated and memoised planner disagree at (%s, %s): %s" % (info["args"][0], info["args"][1], tr[0]), "entry"))
+    return out
+
+
 # ---------------------------------------------------------------- C02, pass structure read directly off the stream
 def oracle_passes(cases, impl):
     """C02 as stated, independent of the executor's exhaustion bookkeeping: after EndForward, every EndReverse closes an
@@ -593,6 +633,8 @@ def all_findings(cases, impl):
     f += oracle_values(cases, impl)
     f += oracle_passes(cases, impl)
     f += oracle_r_hist(cases, impl)
+    f += oracle_mxrr(cases, impl)
+    f += oracle_tabmemo(cases, impl)
     return f
 
 
